@@ -1,10 +1,11 @@
 SPECIFICATION Spec
 CONSTANTS
   NB = 4
-  OpKinds = {"add", "addu", "rem", "sync"}
+  OpKinds = {"addu", "addx", "rem", "sync"}
   MaxLen = 4
   MaxLevel = 6
   Inits = {"one", "split"}
   Patterns = {"rand"}
+  Keeps = {TRUE, FALSE}
   Emit = "state"
 INVARIANTS EmitCase
